@@ -15,7 +15,7 @@ BOUNDS = dict(quick='L1: n <= 6, {smape, r2} x 2 distances, symbolic t (cost and
               thorough='L1: n <= 7; L0: 12 pool curves, one or two symbolic heights')
 ASSUMPTIONS = ['exact real arithmetic (T1): "beyond rounding noise" is read as exact arg-max', 't > 0 (t <= 1 for R2)', 'y >= 0 in L0',
                'the specification is relative to the library\'s own cost and distance primitives (as the statement says); the primitives are covered by C16/C17']
-CONFIG = dict(quick=dict(budget_s=170, case_wall_s=150, max_paths=40000), thorough=dict(budget_s=900, case_wall_s=700, max_paths=800000))
+CONFIG = dict(quick=dict(budget_s=170, case_wall_s=150, max_paths=40000), thorough=dict(max_cases=450, budget_s=900, case_wall_s=700, max_paths=800000))
 DIST = ['shortest', 'perpendicular']
 MET = ['smape', 'r2', 'rmspe', 'rmsle', 'rpd']
 
